@@ -79,11 +79,13 @@ def cases(spec_fn):
             c.cases.append((name, build, opts))
             h = opts.get('history')
             if h:
-                from .factory import history_builder, other_instance_builder
+                from .factory import history_builder, other_instance_builder, history_inplace_builder
                 o2 = dict((k, v) for k, v in opts.items() if k != 'history')
                 if h.get('mutable'):
                     c.cases.append(('%s; after an earlier %s() call and re-assignment of %s' % (name, h['method'], ','.join(h['mutable'])),
                                     history_builder(build, h['method'], tuple(h['mutable'])), o2))
+                    c.cases.append(('%s; after an earlier %s() call and in-place modification of the arrays in %s' % (name, h['method'], ','.join(h['mutable'])),
+                                    history_inplace_builder(build, h['method'], tuple(h['mutable'])), o2))
                 if h.get('other'):
                     c.cases.append(('%s; after a %s() call on another instance with other parameters' % (name, h['method']),
                                     other_instance_builder(build, h['method']), o2))
